@@ -70,7 +70,7 @@ fn valid_dispatch(rng: &mut Rng) -> Rt {
     let vars = match rng.below(4) {
         0 => Vec::new(),
         1 => echo_wasm_abi::encode_cbor(&crate::abi::g_control(rng)).unwrap_or_default(),
-        _ => rng.bytes(rng.range_usize(1, 200)),
+        _ => { let n_ = rng.range_usize(1, 200); rng.bytes(n_) },
     };
     match echo_wasm_abi::pack_intent_v1(op, &vars) {
         Ok(b) => Rt::ok(b),
@@ -118,6 +118,7 @@ pub fn codecs() -> Vec<Codec> {
             chunks: &[4],
             needs_kernel: true,
             in_c12: false,
+            in_c13: true,
         },
         Codec {
             name: "wasm.observe_cbor",
@@ -130,6 +131,7 @@ pub fn codecs() -> Vec<Codec> {
             chunks: &[],
             needs_kernel: true,
             in_c12: false,
+            in_c13: true,
         },
         Codec {
             name: "wasm.dispatch_control_intent_trusted_cbor",
@@ -142,6 +144,7 @@ pub fn codecs() -> Vec<Codec> {
             chunks: &[4],
             needs_kernel: true,
             in_c12: false,
+            in_c13: true,
         },
     ]
 }
